@@ -274,8 +274,8 @@ func acRead(ctx context.Context, w *run.Worker, c *run.Case) {
 
 func body(w *run.Worker) {
 	ctx := context.Background()
-	w.Cases("acread", w.N(120, 4000), func(c *run.Case) { acRead(ctx, w, c) })
-	w.Cases("hist", w.N(240, 4800), func(c *run.Case) {
+	w.Cases("acread", w.N(120, 1800), func(c *run.Case) { acRead(ctx, w, c) })
+	w.Cases("hist", w.N(240, 2400), func(c *run.Case) {
 		r := c.Rng
 		cfg := asm.GenConfig(r, r.Bool())
 		cfg.InMemoryBlocks = false
